@@ -66,6 +66,13 @@ def reducedRegimenToEvent (dose start duration : Rat) (period : Option Rat) (num
     Except Err Event :=
   regimenToEvent dose start duration period num
 
+/-- the averaging predictive models (`PosteriorPredictiveModel`, `PriorPredictiveModel`,
+    `PopulationPredictiveModel`, and `PAMPredictiveModel` over `k` candidate models) hand the five
+    arguments on to every predictive model they wrap -/
+def averagedRegimenToEvents (k : Nat) (dose start duration : Rat) (period : Option Rat)
+    (num : Option Int) : List (Except Err Event) :=
+  (List.range k).map (fun _ => regimenToEvent dose start duration period num)
+
 /-! ## what the pacing variable does -/
 
 /-- start of the `k`-th occurrence -/
@@ -271,5 +278,21 @@ def addDoseCompartment (m : Eqs) (amount depot ka : String) : Eqs :=
 def setAdministration (m : Eqs) (amount depot ka doseRate : String) (direct : Bool) : Eqs :=
   if direct then addDoseRate m amount doseRate
   else addDoseRate (addDoseCompartment m amount depot ka) depot doseRate
+
+/-- `PKPDModel.set_administration` always starts from the model file (`_vanilla_model.clone()`):
+    the route chosen before plays no role -/
+structure AdminCall where
+  amount : String
+  depot : String
+  ka : String
+  rate : String
+  direct : Bool
+
+structure PKState where
+  vanilla : Eqs
+  current : Eqs
+
+def adminStep (s : PKState) (c : AdminCall) : PKState :=
+  { s with current := setAdministration s.vanilla c.amount c.depot c.ka c.rate c.direct }
 
 end ChiModel.Dosing
